@@ -75,6 +75,28 @@ int main() {}
                           contract='static facts: as_quantity(duration<%s, %d/%d>) has rep %s and a unit quantity-equivalent to seconds*%d/%d; as_chrono_duration returns the same Period; '
                                    'the duration converts implicitly to that quantity type' % (G.ctype(rep), n_, d_, G.ctype(rep), n_, d_),
                           functions_under_contract=('au::CorrespondingQuantity<std::chrono::duration> (compile-time)',)))
+    # supporting static facts: a duration is implicitly accepted by a quantity type exactly when the corresponding quantity (built here independently) would be
+    acc = [('double', 'sec', 'au::Seconds', 'int32_t'), ('double', 'sec', 'au::Seconds', 'double'), ('int64_t', 'milli', 'au::Seconds', 'int64_t'), ('int64_t', 'sec', 'au::Milli<au::Seconds>', 'int64_t'),
+           ('int32_t', 'hour', 'au::Seconds', 'int32_t'), ('float', 'milli', 'au::Seconds', 'float'), ('float', 'milli', 'au::Seconds', 'int64_t'), ('int32_t', 'sec', 'au::Seconds', 'double'),
+           ('int64_t', 'nano', 'au::Milli<au::Seconds>', 'int64_t'), ('int16_t', 'min', 'au::Seconds', 'int16_t'), ('int32_t', 'min', 'au::Seconds', 'int16_t')]
+    for i, (crep, p, tu, trep) in enumerate(acc if tier == 'thorough' else acc[:8]):
+        n_, d_ = PERIODS[p]
+        U = unit(p)
+        src = '''#include <chrono>
+#include <type_traits>
+#include "au/chrono_interop.hh"
+#include "au/units/seconds.hh"
+#define VF_STATIC_FACT(c) static_assert(c, "VF_STATIC_FACT")
+using D = std::chrono::duration<%s, std::ratio<%d, %d>>;
+using QD = au::Quantity<%s, %s>;          // the corresponding quantity, spelled out independently of CorrespondingQuantity
+using QT = au::Quantity<%s, %s>;
+VF_STATIC_FACT((std::is_convertible<D, QT>::value) == (std::is_convertible<QD, QT>::value));
+VF_STATIC_FACT((std::is_constructible<QT, D>::value) == (std::is_constructible<QT, QD>::value));
+int main() {}
+''' % (crep, n_, d_, U, crep, tu, trep)
+        obs.append(Ob(id='C17.static.accept.%02d_%s_%s_to_%s' % (i, crep.replace('_t', ''), p, trep.replace('_t', '')), prop='C17', group='C17.static', prelude='', wrappers=[], inputs=[], body=src, kind='S',
+                      contract='static fact: duration<%s, %d/%d> is implicitly convertible to / constructible into Quantity<%s, %s> exactly when Quantity<seconds*%d/%d, %s> is'
+                               % (crep, n_, d_, tu, trep, n_, d_, crep), functions_under_contract=('au::Quantity::Quantity(T&&) [corresponding quantity] (compile-time)',)))
     # mixed duration / quantity operations agree with chrono itself
     mixed = [('i64', 'milli', 'sec'), ('i64', 'nano', 'milli'), ('i64', 'pico', 'nano'), ('i32', 'milli', 'sec'), ('i64', 'sec', 'hour'), ('i64', 'ntsc', 'milli'), ('i32', 'sec', 'min')]
     if tier == 'thorough': mixed += [('i64', 'micro', 'min'), ('i64', 'sixtieth', 'ntsc'), ('i32', 'min', 'hour'), ('i64', 'day', 'sec')]
